@@ -11,7 +11,7 @@ BUDGET = {"quick": 500, "thorough": 8000}
 LEVEL_TEXT = ("Lean theorems: C17_proceed_iff (the callback proceeds iff known, trust-all, or the first decisive answer is yes/all), "
               "C17_refused, C17_rewrite (new entries added, every old line with an unrelated address kept unchanged and in order, nothing "
               "else written) for every host list and file; tied to the code by the real trustHosts on generated known_hosts files (lines and "
-              "normalised addresses taken from the knownhosts library) and the real Wrap()+PromptAddHosts with scripted stdin")
+              "normalised addresses taken from the knownhosts library) and the real Wrap()+PromptAddHosts with scripted stdin; scripts in which nobody answers and the client's context ends (no answer is no approval), and several attempts through the same callback after a refusal")
 TRUSTED = ["Lean 4 kernel", "axioms: propext, Quot.sound, Classical.choice (at most)", "overlay harness + dtmodel driver + this diff",
            "modelled not verified: golang.org/x/crypto/ssh/knownhosts (matching of known/hashed/revoked entries, Line, Normalize), "
            "that a non-nil host-key callback error aborts the dial (library contract), bufio.Scanner, os.Rename"]
